@@ -36,7 +36,7 @@ func main() {
 			isish.Apply(r, []isish.Case{c}, outs, nil)
 			return
 		}
-		n := r.N(800, 15000)
+		n := r.N(1000, 15000)
 		cases := make([]isish.Case, n)
 		for i := range cases {
 			ac := isish.GenAdjCase(r.RandN("c31", i))
